@@ -266,6 +266,86 @@ class LongListings(Stage):
         return res
 
 
+class HugeSessions(Stage):
+    """sessions an order of magnitude beyond the in-process stages (a GDB session left running, a compositor's log of a working
+    day): a fresh `main.py -l` process loads 100 000 .. 270 000 messages of two connections and answers listings at its prompt.
+    The early messages are still there, the counts add up to the number of messages recorded, caps give the last N."""
+    name = 'huge-sessions'
+
+    def examples(self, tier):
+        return 2 if tier == 'quick' else 14
+
+    def gen(self, d, tier):
+        return dict(n=d.choice([100_003, 131_075, 200_001, 262_147]) + d.int(0, 40), early=d.int(2, 30), cap=d.choice([1, 2, 7, 1000, 4097]),
+                    marker=d.choice(['wl_shm', 'wl_seat', 'xdg_wm_base']))
+
+    def execute(self, case):
+        from .. import cli
+        res = Result()
+        n, early = case['n'], case['early']
+        lines = ['[1000.000] <1>  -> wl_display#1.get_registry(new id wl_registry#2)', '[1000.100] <2>  -> wl_display#1.get_registry(new id wl_registry#2)']
+        lines += ['[1000.%03d] <1> wl_registry#2.global(%d, "%s", 1)' % (200 + i, i + 1, case['marker']) for i in range(early)]
+        t = 1001000
+        k = 3
+        while len(lines) < n - 1:
+            # connection 2 goes on for the rest of the day: sync / done / delete_id over and over on re-used ids
+            for l in ('[%d.%03d] <2>  -> wl_display#1.sync(new id wl_callback#%d)' % (t // 1000, t % 1000, k), '[%d.%03d] <2> wl_callback#%d.done(%d)' % (t // 1000, (t + 1) % 1000, k, t & 0xffff),
+                      '[%d.%03d] <2> wl_display#1.delete_id(%d)' % (t // 1000, (t + 2) % 1000, k)):
+                if len(lines) < n - 1:
+                    lines.append(l)
+            t += 7
+        lines.append('[%d.%03d] <1>  -> wl_display#1.sync(new id wl_callback#3)' % (t // 1000 + 1, 0))
+        n = len(lines)
+        cmds = ['list .global', 'list A:', 'list .get_registry', 'list * ~ %d' % case['cap'], 'list A: ~ %d' % case['cap'], 'q']
+        with cli.Scratch() as sc:
+            log = sc.write('huge.log', '\n'.join(lines) + '\n')
+            rc, out, err = cli.run_main(['-C', '-l', log, '-f', '!'], stdin=('\n'.join(cmds) + '\n').encode(), timeout=900)
+        res.evals = n
+        if rc is None:
+            res.label('timed-out(inconclusive)')
+            return res
+        text = out.decode('utf-8', 'replace')
+        if rc != 0 or 'Traceback' in err.decode('utf-8', 'replace'):
+            res.bad('huge:exit', 'exit status %r, stderr %r' % (rc, err[-300:]))
+            return res
+        # one block per command: the message lines it listed and its count line
+        blocks, cur = [], None
+        for l in text.split('\n'):
+            while l.startswith('wl debug $ '):
+                l = l[len('wl debug $ '):]
+            if l.startswith('Messages that match'):
+                cur = dict(head=l, lines=[], count=None, none=None)
+                blocks.append(cur)
+            elif cur is not None and NONE_OF.match(l):
+                cur['none'] = int(NONE_OF.match(l).group(1))
+            elif cur is not None and session.MSG_LINE.match(l):
+                cur['lines'].append(l)
+            elif cur is not None and COUNT.match(l.strip()):
+                cur['count'] = [int(x or 0) for x in COUNT.match(l.strip()).groups()]
+        a_msgs = 2 + early        # connection A: its get_registry, the globals, the last sync
+        want = [('list .global', early, None), ('list A:', a_msgs, None), ('list .get_registry', 2, None), ('cap', min(case['cap'], n), case['cap']), ('cap A:', min(case['cap'], a_msgs), case['cap'])]
+        if len(blocks) != len(want):
+            res.bad('huge:listings', '%d listings answered, %d asked; output tail %r' % (len(blocks), len(want), text[-300:]))
+            return res
+        for (what, k, cap), b in zip(want, blocks):
+            if len(b['lines']) != k:
+                res.bad('huge:list-wrong-number-of-messages', '%s over %d recorded messages: %d lines, expected %d (%s)' % (what, n, len(b['lines']), k, b['head'][:80]))
+            if b['count'] is not None and sum(b['count']) != n:
+                res.bad('huge:counts-do-not-add-up', '%s: %r adds up to %d, %d messages were recorded' % (what, b['count'], sum(b['count']), n))
+            if b['count'] is None and k:
+                res.bad('huge:no-count-line', '%s: no count line' % what)
+            if b['none'] is not None and b['none'] != n:
+                res.bad('huge:none-of-K-wrong', '%s: none of %d messages, %d were recorded' % (what, b['none'], n))
+        if blocks[0]['lines'] and case['marker'] not in blocks[0]['lines'][0]:
+            res.bad('huge:list-wrong-messages', 'list .global shows %r' % blocks[0]['lines'][0])
+        if blocks[3]['lines'] and 'sync' not in blocks[3]['lines'][-1]:
+            res.bad('huge:cap-is-not-the-last', 'list ~ %d ends with %r' % (case['cap'], blocks[3]['lines'][-1]))
+        res.nontrivial = True
+        res.label('messages>=%d0000' % (n // 10000))
+        res.sample = dict(messages=n, commands=cmds)
+        return res
+
+
 class C11(Prop):
     id = 'C11'
     rule = ('scripted sessions (as C06) with list-heavy command weights: `list [matcher] [~ N]` with N absent, 0, 1, 2, 3, 5, 50, 100, a non-number; '
@@ -274,7 +354,7 @@ class C11(Prop):
             'filter/breakpoint/selection/record sampled before and after. non-trivial = session with a non-empty listing smaller than the '
             'record and a binding cap; distinct by SHA-1 of the case. long-listings: the same comparisons over sessions of 800..12 000 messages expanded from a drawn template, caps around 1000 and up to 6000, labels deep into the incarnation letters, one listing mid-stream. Listings whose matcher was rendered from a syntax tree (depth <= 2) are also compared with the documented meaning where that is settled.')
     assumptions = ['matcher meaning is C05\'s business', 'cap 0 and negative caps are outside the statement (only sanity-checked)']
-    stages = [Listings(), LongListings()]
+    stages = [Listings(), LongListings(), HugeSessions()]
 
 
 PROP = C11()
